@@ -12,11 +12,16 @@ RULE = ("get_cursor_position: EVERY string `pre` of length <= 4 (quick) / <= 5 (
         "x callback present/absent; seeded: longer `pre` incl. complete look-alike reports (tie only), OSError at random "
         "positions, reads returning '' (ValueError), a non-ASCII decimal digit; _get_cursor_vertical_diff_once: every "
         "(top_usable_row -2..6, last row None/0..6, reported row 0..8); get_cursor_vertical_diff: seeded sequences of "
-        "calls, each with 0-3 nested calls injected from inside in_stream.read while the query is in progress. "
+        "calls, each with 0-3 nested calls injected from inside in_stream.read while the query is in progress, and with "
+        "queries that RAISE (input ahead of the report without a callback; a read returning '') - the flag must be clear "
+        "afterwards and the next call must query and account normally; sequences of calls with failing ones interleaved. "
         "non-trivial = distinct cases whose pre is non-empty, or that move the cursor, or that nest")
 ASSUMPTIONS = ["input ahead of the report contains no complete look-alike report (CSI digits ; digits R): the code cannot "
                "tell it from the real one (such inputs are still compared model<->code)",
                "in_stream delivers characters (text stream); extra bytes are the encoding of the preceding characters",
+               "the production path `self.t.get_location()` (window.py:316, taken only when out_stream/in_stream are the "
+               "process's real stdout/stdin: `_use_blessed`) is blessed's own query code: outside the model, the tie and the "
+               "coverage of this check",
                "nested get_cursor_vertical_diff calls arrive while the position query is in progress (the re-entrancy "
                "guard's window); handlers interrupting between two bytecodes of the bookkeeping are not modelled"]
 
@@ -196,17 +201,32 @@ def opt(v):
     return "N" if v is None else str(v)
 
 
+def round_events(rd):
+    """the in_stream events of one round: a report, or what makes the query raise ValueError"""
+    row, _nested, how = rd
+    if how == "pre":                      # input ahead of the report and no callback
+        return list("a" + report_for(row))
+    if how == "Z":                        # a read returning ''
+        return ["Z"]
+    return list(report_for(row))
+
+
+def enc_round(rd):
+    return ("E:%d" % rd[1]) if rd[2] else ("%d:%d" % (rd[0], rd[1]))
+
+
 def run_vdiff(c):
-    """rounds: [(row, nested)].  The nested calls are made from inside in_stream.read (as a signal handler would)
-    when the first character of that round's report is read."""
+    """rounds: [(row, nested, how)], how = None (reports `row`) | 'pre' | 'Z' (the query raises ValueError).
+    The nested calls are made from inside in_stream.read (as a signal handler would) when the first event of that
+    round is read.  After a call that raised, a FOLLOW-UP call with one clean report is made (`after`)."""
     w = window()
     w.extra_bytes_callback = None
     w.top_usable_row, w._last_cursor_row = c["top"], c["last"]
     w.in_get_cursor_diff, w.another_sigwinch = c["in_diff"], False
     events, starts = [], {}
-    for row, nested in c["rounds"]:
-        starts[len(events)] = nested
-        events += list(report_for(row))
+    for rd in c["rounds"]:
+        starts[len(events)] = rd[1]
+        events += round_events(rd)
     nested_returns = []
 
     def hook(i):
@@ -220,8 +240,21 @@ def run_vdiff(c):
         out["ret"] = w.get_cursor_vertical_diff()
     except BlockedForever:
         out["blocked"] = True
+    except ValueError:
+        out["exc"] = "ValueError"
     out.update(top=w.top_usable_row, last=w._last_cursor_row, in_diff=w.in_get_cursor_diff, another=w.another_sigwinch,
                consumed=w.in_stream.pos, queries=w.out_stream.take().count("\x1b[6n"))
+    if "exc" in out and not c["in_diff"]:
+        # the next call, with an undisturbed report: it must be an ordinary call
+        row2 = c.get("after_row", 11)
+        w.in_stream = Scripted(report_for(row2))
+        before = (w.top_usable_row, w._last_cursor_row)
+        try:
+            ret2 = w.get_cursor_vertical_diff()
+            out["after"] = dict(ret=ret2, top=w.top_usable_row, last=w._last_cursor_row, before=before, row=row2,
+                                queries=w.out_stream.take().count("\x1b[6n"))
+        except Exception as e:  # noqa: BLE001
+            out["after"] = dict(error=type(e).__name__)
     w.in_get_cursor_diff = False
     return out
 
@@ -231,13 +264,14 @@ def vdiff_reply(c, o):
         return "blocked"
     # rounds left unread
     used, pos = 0, 0
-    for row, _ in c["rounds"]:
+    for rd in c["rounds"]:
         if pos >= o["consumed"]:
             break
-        pos += len(report_for(row))
+        pos += len(round_events(rd))
         used += 1
-    rest = ",".join("%d:%d" % rn for rn in c["rounds"][used:]) or "."
-    return "ok %d %s %d %d %d %s" % (o["top"], opt(o["last"]), o["in_diff"], o["another"], o["ret"], rest)
+    rest = ",".join(enc_round(rd) for rd in c["rounds"][used:]) or "."
+    head = "E:" + o["exc"] if "exc" in o else "ok %d" % o["ret"]
+    return "%s %d %s %d %d %s" % (head, o["top"], opt(o["last"]), o["in_diff"], o["another"], rest)
 
 
 def vdiff_oracle(c, o):
@@ -245,26 +279,50 @@ def vdiff_oracle(c, o):
         # a call arriving during another query: returns 0 at once, reads nothing, asks for a re-query
         ok = o.get("ret") == 0 and o["consumed"] == 0 and o["top"] == c["top"] and o["last"] == c["last"] and o["another"]
         return None if ok else "nested call did not return 0 untouched: %r" % (o,)
+    # the rounds the call goes through: up to and including the first undisturbed or failing one
+    k = next((i for i, rd in enumerate(c["rounds"]) if rd[2] or rd[1] == 0), None)
     if o.get("blocked"):
-        # only when every scripted round was interrupted by a nested call
-        return None if all(n > 0 for _, n in c["rounds"]) else "blocked although an undisturbed report was available"
+        return None if k is None else "blocked although an undisturbed report was available"
+    if k is None:
+        return "returned although every scripted query was disturbed: %r" % (o,)
+    k += 1
     if any(x != 0 for x in o["nested_returns"]):
         return "a nested call returned %r" % (o["nested_returns"],)
-    # rounds consumed: up to and including the first one without nested calls
-    k = next(i for i, (_, n) in enumerate(c["rounds"]) if n == 0) + 1
-    want_consumed = sum(len(report_for(r)) for r, _ in c["rounds"][:k])
+    want_consumed = sum(len(round_events(rd)) for rd in c["rounds"][:k])
     if o["consumed"] != want_consumed or o["queries"] != k:
-        return "made %d queries / read %d characters, expected %d / %d" % (o["queries"], o["consumed"], k, want_consumed)
-    final_row = c["rounds"][k - 1][0]
+        return "made %d queries / read %d events, expected %d / %d" % (o["queries"], o["consumed"], k, want_consumed)
+    if o["in_diff"]:
+        return "in_get_cursor_diff left set%s" % (" after the query raised" if "exc" in o else "")
+    final = c["rounds"][k - 1]
+    reported = [rd[0] for rd in c["rounds"][:k] if not rd[2]]
+    if final[2]:
+        # the query raised: ValueError must propagate; the rows reported by the earlier (disturbed) rounds are known
+        if o.get("exc") != "ValueError":
+            return "the cursor query raised ValueError but the call returned %r" % (o.get("ret"),)
+        if o["last"] != (reported[-1] if reported else c["last"]):
+            return "_last_cursor_row is %r after a failing query" % (o["last"],)
+        if not reported and o["top"] != c["top"]:
+            return "top_usable_row changed although no row was reported"
+        a = o.get("after")
+        if not a or "error" in a:
+            return "the call after a failing query raised: %r" % (a,)
+        if a["queries"] != 1:
+            return "the call after a failing query made %d cursor queries (it returned %r without asking the terminal)" % (a["queries"], a["ret"])
+        known = a["before"][1]
+        moved = 0 if known is None else a["row"] - known
+        if (a["top"] - a["before"][0]) + a["ret"] != moved or a["last"] != a["row"]:
+            return "after a failing query: top changed by %d, %d returned, cursor moved %d" % (a["top"] - a["before"][0], a["ret"], moved)
+        return None
+    if "exc" in o:
+        return "raised %s although every query succeeded" % o["exc"]
+    final_row = final[0]
     if o["last"] != final_row:
         return "_last_cursor_row is %r after the terminal reported row %d" % (o["last"], final_row)
     # observed movement: from the last known row (the first report when none was known) to the final report
-    known = c["last"] if c["last"] is not None else c["rounds"][0][0]
+    known = c["last"] if c["last"] is not None else reported[0]
     moved = final_row - known
     if (o["top"] - c["top"]) + o["ret"] != moved:
         return "top_usable_row changed by %d and %d was returned, cursor moved %d" % (o["top"] - c["top"], o["ret"], moved)
-    if o["in_diff"]:
-        return "in_get_cursor_diff left set"
     return None
 
 
@@ -273,15 +331,25 @@ def mk_diff(ctx):
     ctx.exhaustive.append("_get_cursor_vertical_diff_once: top -2..6 x last None/0..6 x row 0..8: %d cases" % len(once))
     r = ctx.rng
     vd = []
-    for _ in range(4000 if ctx.thorough else 1200):
+    for _ in range(4000 if ctx.thorough else 1500):
         n = r.randint(1, 4)
-        rounds = [(r.randint(0, 30), r.choice([1, 1, 2, 3])) for _ in range(n - 1)] + [(r.randint(0, 30), 0)]
+        rounds = [(r.randint(0, 30), r.choice([1, 1, 2, 3]), None) for _ in range(n - 1)] + [(r.randint(0, 30), 0, None)]
         if r.random() < 0.1:
-            rounds[-1] = (rounds[-1][0], 1)          # even the last report is disturbed: blocks
+            rounds[-1] = (rounds[-1][0], 1, None)          # even the last report is disturbed: blocks
         if r.random() < 0.3:
-            rounds += [(r.randint(0, 30), r.choice([0, 1]))]    # unread further input
+            # the query of one round raises ValueError: input ahead of the report without a callback, or a '' read
+            i = r.randrange(len(rounds))
+            rounds[i] = (rounds[i][0], rounds[i][1], r.choice(["pre", "Z"]))
+        if r.random() < 0.3:
+            rounds += [(r.randint(0, 30), r.choice([0, 1]), None)]    # unread further input
         vd.append(dict(kind="vdiff", top=r.randint(0, 12), last=r.choice([None] + list(range(0, 30))),
-                       in_diff=r.random() < 0.1, rounds=rounds))
+                       in_diff=r.random() < 0.1, rounds=rounds, after_row=r.randint(0, 30)))
+    # the smallest failing histories, exhaustively: one failing query (both causes) x nested 0/1 x last known/unknown
+    for how in ("pre", "Z"):
+        for nested in (0, 1):
+            for last in (None, 4):
+                for lead in ([], [(6, 1, None)]):
+                    vd.append(dict(kind="vdiff", top=3, last=last, in_diff=False, rounds=lead + [(9, nested, how)], after_row=7))
     return once, vd
 
 
@@ -370,10 +438,11 @@ def check(ctx):
         return guard(vd_impl0, o_vd, c)
 
     ctx.tie("C18/vertical_diff", vd, lambda c: "vdiff %d %s %d %s" % (
-        c["top"], opt(c["last"]), c["in_diff"], ",".join("%d:%d" % rn for rn in c["rounds"])), vd_impl)
+        c["top"], opt(c["last"]), c["in_diff"], ",".join(enc_round(rd) for rd in c["rounds"])), vd_impl)
     for c in vd:
         o = o_vd[id(c)]
-        ctx.count(c, nontrivial=len(c["rounds"]) > 1, tag="vdiff:%d" % min(len(c["rounds"]), 4))
+        ctx.count(c, nontrivial=len(c["rounds"]) > 1,
+                  tag="vdiff:%d%s" % (min(len(c["rounds"]), 4), "+raise" if any(rd[2] for rd in c["rounds"]) else ""))
         w = judge(vdiff_oracle, c, o)
         if w:
             ctx.violation("get_cursor_vertical_diff: " + w, c, None)
@@ -392,17 +461,31 @@ def seq_oracle(ctx):
         w._last_cursor_row, w.in_get_cursor_diff = row, False
         total, hist = 0, []
         crashed = None
+        failed = 0
         for _ in range(r.randint(1, 6)):
             row = max(0, row + r.randint(-6, 6))
             hist.append(row)
+            if r.random() < 0.25:
+                # a call whose query fails (ValueError): it must not disturb the bookkeeping of the later calls
+                w.in_stream = Scripted(r.choice([["Z"], list("x" + report_for(row))]))
+                failed += 1
+                try:
+                    w.get_cursor_vertical_diff()
+                    crashed = RuntimeError("no ValueError from a failing query")
+                    break
+                except ValueError:
+                    pass
+                except Exception as e:  # noqa: BLE001
+                    crashed = e
+                    break
             w.in_stream = Scripted(report_for(row))
             try:
                 total += w.get_cursor_vertical_diff()
             except Exception as e:  # noqa: BLE001
                 crashed = e
                 break
-        case = dict(kind="seq", top=top0, row0=row0, rows=hist)
-        ctx.count(case, tag="vdiff-sequence")
+        case = dict(kind="seq", top=top0, row0=row0, rows=hist, failed=failed)
+        ctx.count(case, tag="vdiff-sequence%s" % ("+raise" if failed else ""))
         if crashed is not None:
             w.in_get_cursor_diff = False
             ctx.violation("sequence of get_cursor_vertical_diff calls raised %s: %s" % (type(crashed).__name__, crashed), case, None)
